@@ -141,7 +141,7 @@ def data_bits(v, level):
 
 def cci_bits(mode, v):
     if v < 1:
-        return CCI_MICRO[mode].get(v)
+        return CCI_MICRO.get(mode, {}).get(v)      # None: mode not available in that Micro version (hanzi: in none)
     return CCI_QR[mode][0 if v <= 9 else (1 if v <= 26 else 2)]
 
 
